@@ -304,6 +304,46 @@ def opAuto : List V → Option V
         | none => reject)
   | _ => none
 
+/-! ### second pass: programs of calls on several writer objects for one file -/
+
+def call? : V → Option (Call V)
+  | atom "init" => some .init
+  | atom "fin" => some .fin
+  | list [atom "app", a] => (arg? a).map .app
+  | list [atom "write", f] => (wframe? f).map .write
+  | _ => none
+
+def obj? : V → Option (Kind × Nat)
+  | list [k, size] => do
+      let k ← kind? k
+      let size ← toNat? size
+      some (k, size)
+  | _ => none
+
+/-- `tab-calls csv|pq [col…] [[kind size]…] old [[j call]…]` → what the associated reader
+reads back after the program of calls `objs[j].<call>` on writer objects created by
+`from_suffix` for one file (`call ::= init | fin | [app arg] | [write [[name…] [row…]]]`),
+or `reject` when a call raises -/
+def opCalls : List V → Option V
+  | [atom "csv", cs, objs, old, calls] => do
+      let cs ← names? cs
+      let objs ← toList? obj? objs
+      let old ← csvFile? old
+      let calls ← toList? (toPair? toNat? call?) calls
+      some (match runCalls (csvWriter cs) (csvWrite1 cs) objs old calls with
+        | some st => (match (csvDiskReader st.2).bind (fun r => r.read none) with
+            | some d => ofDF d
+            | none => atom "reject-read")
+        | none => reject)
+  | [atom "pq", cs, objs, _old, calls] => do
+      let cs ← names? cs
+      let objs ← toList? obj? objs
+      let calls ← toList? (toPair? toNat? call?) calls
+      some (match runCalls (pqWriter cs) (pqWrite1 cs) objs (none : Option (PqDisk V)) calls with
+        | some st => pqBack st.2
+        | none => reject)
+  | _ => none
+
 end Mk.Ops.Tabular
 
 namespace Mk.Ops
@@ -312,6 +352,6 @@ open Mk.Ops.Tabular
 def tabularOps : List (String × (List V → Option V)) :=
   [("tab-names", opNames), ("tab-read", opRead), ("tab-chunked", opChunked), ("tab-chunks", opChunks),
    ("tab-spec-select", opSpecSelect), ("tab-wr-csv", opWrCsv), ("tab-wr-pq", opWrPq), ("tab-emitted", opEmitted),
-   ("tab-write1", opWrite1), ("tab-auto", opAuto)]
+   ("tab-write1", opWrite1), ("tab-auto", opAuto), ("tab-calls", opCalls)]
 
 end Mk.Ops
